@@ -210,6 +210,25 @@ ExpOf(s) ==
        hv |-> IF KindOf(m) = "h" THEN s.since[m] ELSE EmptyBag ]]
 SnapshotExact == \A r \in Recs : SnapOf(st[r]) = ExpOf(st[r])
 
+----------------------------------------------------------------------------
+(* Concurrent use of one recorder (real-parallel conformance rounds): n threads each register the  *)
+(* metric (name nm, label set ls) as counter, gauge and histogram on a fresh recorder -- each with *)
+(* an equal key built its own way -- and update the handle they were given once: increment(1),     *)
+(* increment(1.0), record(tid).  Registration is an atomic get-or-create (every thread gets the     *)
+(* same storage) and the updates are atomic and commute, so every interleaving must end in the      *)
+(* state of the sequential execution below; SharedRegister.tla decides this on the lock-level       *)
+(* protocol of register_* / Registry::get_or_create_* for all interleavings.  The listing order is  *)
+(* c, g, h in every schedule (each thread registers in that order).                                 *)
+ThreadRound(s, t, nm, ls) ==
+  LET c == <<"c", nm, ls>>  g == <<"g", nm, ls>>  h == <<"h", nm, ls>>
+      s1 == RegisterF(RegisterF(RegisterF(s, c), g), h)
+      s2 == UpdateCGF(s1, c, <<"inc", 1>>)
+      s3 == UpdateCGF(s2, g, <<"ginc", 1>>)
+  IN RecordF(s3, h, t, 1)
+RECURSIVE RoundState(_, _, _)
+RoundState(n, nm, ls) == IF n = 0 THEN InitRec(1000000) ELSE ThreadRound(RoundState(n - 1, nm, ls), n, nm, ls)
+RoundSnapshot(n, nm, ls) == SnapOf(RoundState(n, nm, ls))
+
 TypeOK ==
   \A r \in Recs :
     /\ Range(st[r].seen) \subseteq Metric
